@@ -307,34 +307,51 @@ def p4_context(ctx):
     a, b = st['body'].get('body', []), re_['body'].get('body', [])
     if len(a) != len(b):
         ctx.report(R, re_, re_['body'], 'ContextStore/Restore length', 'store has %d top-level steps, restore has %d' % (len(a), len(b)))
-    for i, (x, y) in enumerate(zip(a, b)):
+    # the steps touch disjoint registers, so their order is immaterial: pair calls by name and conditionals by guard
+    from .. import boolform
+    fa, fb = boolform.Former(st), boolform.Former(re_)
+    want_calls = {'ShadowStore': 'ShadowRestore', 'ShadowSwap': 'ShadowSwap'}
+    ca = sorted(x.get('name') for x in a if x.get('k') == 'call')
+    cb = sorted(y.get('name') for y in b if y.get('k') == 'call')
+    ctx.oblig(R, 2)
+    if ca != sorted(want_calls) or cb != sorted(want_calls.values()):
+        ctx.report(R, re_, re_['body'], 'ContextStore/Restore calls', 'store calls %s, restore calls %s' % (ca, cb))
+    other = [x.get('k') for x in a + b if x.get('k') not in ('call', 'if')]
+    if other:
+        ctx.report(R, re_, re_['body'], 'ContextStore/Restore steps', 'unexpected step kinds %s' % other)
+    ifs_b = [y for y in b if y.get('k') == 'if']
+    for i, x in enumerate([x for x in a if x.get('k') == 'if']):
         ctx.oblig(R)
-        inst = 'ContextStore/Restore step %d' % i
-        if x.get('k') == 'call' and y.get('k') == 'call':
-            nx, ny = x.get('name'), y.get('name')
-            if (nx, ny) not in (('ShadowStore', 'ShadowRestore'), ('ShadowSwap', 'ShadowSwap')):
-                ctx.report(R, re_, y, inst, 'store calls %s, restore calls %s' % (nx, ny))
-        elif x.get('k') == 'if' and y.get('k') == 'if':
-            if rs.r(x['cond']) != rr.r(y['cond']):
-                ctx.report(R, re_, y, inst, 'guards differ: %s vs %s' % (rs.r(x['cond']), rr.r(y['cond'])))
-            for br in ('then', 'else'):
-                if (x.get(br) is None) != (y.get(br) is None):
-                    ctx.report(R, re_, y, inst, 'one side lacks the %s branch' % br)
-                    continue
-                if x.get(br) is None:
-                    continue
-                pa, pb = _assign_pairs(st, x[br], rs), _assign_pairs(re_, y[br], rr)
-                mirror = {(r, l) for (l, r) in pa}
-                exch_a = all((r, l) in pa for (l, r) in pa) and pa
-                exch_b = all((r, l) in pb for (l, r) in pb) and pb
-                if exch_a and exch_b:
-                    if pa != pb:
-                        ctx.report(R, re_, y[br], inst + ' ' + br, 'store exchanges %s, restore exchanges %s' % (sorted(pa, key=str), sorted(pb, key=str)))
-                elif mirror != pb:
-                    ctx.report(R, re_, y[br], inst + ' ' + br, 'restore assignments %s are not the mirror of store assignments %s'
-                               % (sorted(pb, key=str), sorted(pa, key=str)))
-        else:
-            ctx.report(R, re_, y, inst, 'step kinds differ (%s vs %s)' % (x.get('k'), y.get('k')))
+        cx = fa.form(x['cond'])
+        inst = 'ContextStore/Restore guard %s' % boolform.show(cx)[-40:]
+        pol = None
+        y = None
+        for cand in ifs_b:
+            cy = fb.form(cand['cond'])
+            if boolform.equivalent(cx, cy) is True:
+                y, pol = cand, True
+            elif boolform.equivalent(cx, boolform.neg(cy)) is True:
+                y, pol = cand, False
+        if y is None:
+            ctx.report(R, re_, re_['body'], inst, 'restore has no step under the guard %s of the store' % boolform.show(cx)[:120])
+            continue
+        for br in ('then', 'else'):
+            ybr = br if pol else ('else' if br == 'then' else 'then')
+            if (x.get(br) is None) != (y.get(ybr) is None):
+                ctx.report(R, re_, y, inst, 'one side lacks the %s branch' % br)
+                continue
+            if x.get(br) is None:
+                continue
+            pa, pb = _assign_pairs(st, x[br], rs), _assign_pairs(re_, y[ybr], rr)
+            mirror = {(r, l) for (l, r) in pa}
+            exch_a = all((r, l) in pa for (l, r) in pa) and pa
+            exch_b = all((r, l) in pb for (l, r) in pb) and pb
+            if exch_a and exch_b:
+                if pa != pb:
+                    ctx.report(R, re_, y[ybr], inst + ' ' + br, 'store exchanges %s, restore exchanges %s' % (sorted(pa, key=str), sorted(pb, key=str)))
+            elif mirror != pb:
+                ctx.report(R, re_, y[ybr], inst + ' ' + br, 'restore assignments %s are not the mirror of store assignments %s'
+                           % (sorted(pb, key=str), sorted(pa, key=str)))
     F = ctx.F['functions']
     # ShadowRegister Store / Restore per register; lists fold over the same bases
     stores = {k: f for k, f in F.items() if k.startswith(RS + '::ShadowRegister<') and f['name'] == 'Store'}
